@@ -56,3 +56,16 @@ Fixpoint go_range_idx {X A} (l : list X) (i : nat) (body : nat -> X -> A -> opti
   | [] => Some acc
   | x :: t => match body i x acc with None => None | Some a => go_range_idx t (S i) body a end
   end.
+
+(* ---- Go vocabulary of convertOption ---- *)
+(* for _, x := range l { acc, err = body x acc; if err != nil { return err } } *)
+Fixpoint go_range_res {X A} (l : list X) (body : X -> A -> res A) (acc : A) : res A :=
+  match l with
+  | [] => Ok acc
+  | x :: t => do a <- body x acc; go_range_res t body a
+  end.
+(* the type assertion v.(T) of convertOption[T]: in front of a component of option type ty, in front of a sub graph *)
+Definition is_item_of (ty : N) (e : entry) : bool :=
+  match e with EItem (t, _) => N.eqb t ty | EOpt _ => false end.
+Definition is_opt (e : entry) : bool :=
+  match e with EOpt _ => true | EItem _ => false end.
